@@ -666,6 +666,9 @@ fn eval_result_expr(e: &syn::Expr, env: &Env) -> Res<FlagRes> {
     match e {
         syn::Expr::Call(c) => {
             let f = nospace(&c.func);
+            if f != "Ok" && f != "Err" {
+                return Ok(Ok(eval_flags(e)?));
+            }
             let arg = c.args.first().ok_or("open flags: call without argument")?;
             match f.as_str() {
                 "Ok" => match arg {
